@@ -24,7 +24,7 @@ ASSUMPTIONS = [
     "resampled bars: volume = sum, close = last, pool liquidity = last of the minute rows in the bin (the documented LINE_RULES)",
 ]
 MIN_NONTRIVIAL = {"quick": 2000, "thorough": 40000}
-REQUIRED_LABELS = ["cross.into", "cross.out", "cross.over", "close.on_lower", "close.on_upper", "stationary.in", "stationary.on_upper", "write_in_bar", "write_in_crossing_bar", "added.on_bar", "added.before_bar", "interval.5", "multi_position", "out_all_bar"]
+REQUIRED_LABELS = ["cross.into", "cross.out", "cross.over", "close.on_lower", "close.on_upper", "stationary.in", "stationary.on_upper", "write_in_bar", "write_in_crossing_bar", "added.on_bar", "added.before_bar", "interval.5", "multi_position", "out_all_bar", "write_after_update"]
 
 FEES = {"0.05": 10, "0.3": 60, "1": 200}
 
@@ -57,7 +57,7 @@ def st_case(draw):
     for _ in range(draw(st.integers(0, 2))):
         l2 = center + draw(st.integers(-15, 15)) * sp
         positions.append({"lower": l2, "upper": l2 + draw(st.integers(1, 25)) * sp, "add_bar": draw(st.integers(0, nb - 1)), "phase": draw(st.sampled_from(["before", "on"])), "amt": draw(st.sampled_from(["1", "50"])), "remove_bar": draw(st.sampled_from([None, None, nb - 1]))})
-    extra = [{"bar": draw(st.integers(0, nb - 1)), "phase": draw(st.sampled_from(["before", "on"])), "kind": draw(st.sampled_from(["buy", "sell", "far_add", "far_remove", "collect"]))} for _ in range(draw(st.integers(0, 5)))]
+    extra = [{"bar": draw(st.integers(0, nb - 1)), "phase": draw(st.sampled_from(["before", "on", "after"])), "kind": draw(st.sampled_from(["buy", "sell", "far_add", "far_remove", "collect"]))} for _ in range(draw(st.integers(0, 5)))]
     return {"d0": d0, "d1": d1, "t0q": draw(st.booleans()), "fee": fee, "interval": interval, "start_min": draw(st.integers(0, 50)) * interval, "ticks": ticks, "liqs": [str(x) for x in liqs], "in0": [str(x) for x in in0], "in1": [str(x) for x in in1], "positions": positions, "extra": extra}
 
 
@@ -147,10 +147,14 @@ def body(case, ctx: Ctx):
 
         def after_bar(self, snapshot):
             post[snapshot.row_id] = snap()
+            w = dict(wrote)
+            ops("after", snapshot.row_id)  # writes after the fee update of this bar: must not disturb the next bar's path
+            if snapshot.row_id not in w and wrote.pop(snapshot.row_id, None):
+                labels.add("write_after_update")
 
     a.strategy = S()
-    ok = ctx.guarded("loop", case, lambda: (world.quiet_run(a), True)[1])
     labels = {f"interval.{iv}"}
+    ok = ctx.guarded("loop", case, lambda: (world.quiet_run(a), True)[1])
     if ok is None:
         ctx.case(case, False, sorted(labels))
         return
